@@ -89,8 +89,13 @@ class IntegratorTemplate(abc.ABC):
                 corr = corr*D.ar_numpy.where(k3 > 0.0, k3, 1.0)
                 self.solver_dict["epsilon_last_last"], self.solver_dict["epsilon_last"] = epsilon_last, epsilon_current
             corr = (1 + D.ar_numpy.arctan((safety_factor * corr - 1)))
-            timestep = corr * timestep
             redo_step = bool(corr < 0.9**2)
+            if not redo_step and bool(epsilon_current < 1.0):
+                # the error estimate of this attempt exceeds the tolerance: the memory of earlier (even worse,
+                # rejected) attempts in the step-size controller must not lead to accepting it
+                corr = D.ar_numpy.minimum(corr, 0.9**2)
+                redo_step = True
+            timestep = corr * timestep
             if redo_step:
                 # a rejected (possibly wildly inaccurate) attempt must not set the error scale of its retry
                 self.solver_dict.pop("system_scaling", None)
